@@ -88,3 +88,78 @@ package ftp
 //@   ensures [well-formed] result1 == nil ==> result0 != nil && result0.PrivateKey != nil
 //@   ensures [others] forall k string :: k != "pemkey" && k != "pemcert" ==> s.Storage.ghaskv[k] == old(s.Storage.ghaskv[k]) && s.Storage.gkv[k] == old(s.Storage.gkv[k])
 //@   modifies ghost(ghaskv), ghost(gkv), ghost(gsetfail)
+//
+// ---- FTP driver over the sandboxed filesystem (property C11) ----
+// Every file-system call of a driver operation gets a path that is under the filesystem root: the
+// call-site conditions below name the path argument of each os function. fsinv is the representation
+// invariant of filesystem.Htfs (see services/filesystem/contracts_verif.go).
+//@ spec fsroot(ftp *Fs) string = ftp.Htfs.root
+//
+//@ func NewFileDriver
+//@   check safety, frame
+//@   ensures result != nil && result.Htfs == f && fresh(result)
+//@   modifies nothing
+//
+//@ func (*Fs).Stat
+//@   check safety, frame
+//@   requires [inv] ftp.Htfs != nil && filesystem.fsinv(ftp.Htfs)
+//@   callpre os.Lstat: under(fsroot(ftp), name)
+//@   modifies nothing
+//
+//@ func (*Fs).ChangeDir
+//@   check safety, frame
+//@   requires [inv] ftp.Htfs != nil && filesystem.fsinv(ftp.Htfs)
+//@   ensures [inv] filesystem.fsinv(ftp.Htfs) && ftp.Htfs == old(ftp.Htfs)
+//@   modifies ftp.Htfs.cwd
+//
+//@ func (*Fs).CurDir
+//@   check safety, frame
+//@   requires [inv] ftp.Htfs != nil && filesystem.fsinv(ftp.Htfs)
+//@   ensures [reported-inside] rooted(result) && pclean(result)
+//@   modifies nothing
+//
+//@ func (*Fs).ListDir
+//@   check safety, frame
+//@   requires [inv] ftp.Htfs != nil && filesystem.fsinv(ftp.Htfs)
+//@   callpre os.Open: under(fsroot(ftp), name)
+//@   modifies nothing
+//
+//@ func (*Fs).DeleteDir
+//@   check safety, frame
+//@   requires [inv] ftp.Htfs != nil && filesystem.fsinv(ftp.Htfs)
+//@   callpre os.Lstat: under(fsroot(ftp), name)
+//@   callpre os.Remove: under(fsroot(ftp), name)
+//@   modifies fexists
+//
+//@ func (*Fs).DeleteFile
+//@   check safety, frame
+//@   requires [inv] ftp.Htfs != nil && filesystem.fsinv(ftp.Htfs)
+//@   callpre os.Remove: under(fsroot(ftp), name)
+//@   modifies fexists
+//
+//@ func (*Fs).Rename
+//@   check safety, frame
+//@   requires [inv] ftp.Htfs != nil && filesystem.fsinv(ftp.Htfs)
+//@   callpre os.Rename: under(fsroot(ftp), oldpath) && under(fsroot(ftp), newpath)
+//@   modifies fexists, nrenames
+//
+//@ func (*Fs).MakeDir
+//@   check safety, frame
+//@   requires [inv] ftp.Htfs != nil && filesystem.fsinv(ftp.Htfs)
+//@   callpre os.Mkdir: under(fsroot(ftp), name)
+//@   modifies fexists
+//
+//@ func (*Fs).GetFile
+//@   check safety, frame
+//@   requires [inv] ftp.Htfs != nil && filesystem.fsinv(ftp.Htfs)
+//@   callpre os.Open: under(fsroot(ftp), name)
+//@   modifies nothing
+//
+//@ func (*Fs).PutFile
+//@   check safety
+//@   requires [inv] ftp.Htfs != nil && filesystem.fsinv(ftp.Htfs)
+//@   callpre os.Lstat: under(fsroot(ftp), name)
+//@   callpre os.Remove: under(fsroot(ftp), name)
+//@   callpre os.Create: under(fsroot(ftp), name)
+//@   callpre os.OpenFile: under(fsroot(ftp), name)
+//@   modifies *
